@@ -630,6 +630,84 @@ def _check_atom(hooks, p, atom, kname, phi, neg, kids, al, K, state):
 
 
 # ---------------------------------------------------------------------------
+# R-LTL-0  height invariant behind the sort key of the atom builder
+# ---------------------------------------------------------------------------
+
+def rule_ltl0(prog, P):
+    r = RuleResult('R-LTL-0', 'height invariant: an operator is strictly '
+                   'higher than each of its operands (the atom builder '
+                   'processes closure members by height)')
+    from ..formulas import signatures, new_instance
+    sigs = signatures(prog)['LTL']
+    # the sort key must be the height (except not-X): read from the lambda
+    keyok = False
+    for n in ast.walk(P.atoms_fn.node):
+        if isinstance(n, ast.Call) and isinstance(n.func, ast.Name) and \
+                n.func.id == 'sorted':
+            for kw in n.keywords:
+                if kw.arg == 'key' and 'height' in ast.unparse(kw.value):
+                    keyok = True
+    r.inst(function=P.atoms_fn.short(), sort_key_is_height=keyok)
+    if keyok:
+        r.ok()
+    else:
+        r.fail(Finding(PROP, 'R-LTL-0', P.atoms_fn.where(),
+                       P.atoms_fn.short(), 'sort-key',
+                       'the closure is not processed in order of height'))
+    seen = set()
+    for name, s in sorted(sigs.items()):
+        if s.kind != 'op' or s.wrap.qn in seen and False:
+            continue
+        for n in (1, 2, 3):
+            if s.max_arity is not None and n > s.max_arity:
+                continue
+            hooks = FormulaHooks(prog, check_sorts=False)
+            I = Interp(prog, hooks, rule='R-LTL-0')
+            path = I.new_path()
+            me = new_instance(I, s.ci, path)
+            ops = [Sym('f%d' % i, ('inst', s.required)) for i in range(n)]
+            res = I.call_function(FRef(s.wrap), [me, Tup(ops),
+                                                 CRef(s.required)], [], path,
+                                  s.wrap.node)
+            res = [(p, v) for (p, v) in res if not isinstance(v, Raise)]
+            if len(res) != 1:
+                raise Inconclusive('R-LTL-0', '%d paths through %s' % (
+                    len(res), s.wrap.short()), s.wrap.where())
+            p = res[0][0]
+            hv = p.heap[me.oid].fields.get('height')
+            bad = None
+            for hs in itertools.product((0, 1, 2), repeat=n):
+                env = {App('attr', o, Const('height')): h
+                       for o, h in zip(ops, hs)}
+                try:
+                    got = Evaluator(env).ev(hv) if hv is not None else None
+                except NotEvaluable as e:
+                    raise Inconclusive('R-LTL-0', 'height of %s: %s' % (
+                        name, e), s.wrap.where())
+                if got != 1 + max(hs) and bad is None:
+                    bad = (list(hs), got)
+            r.inst(cls='LTL.' + name, operands=n, height=repr(hv)[:120])
+            if bad:
+                key = 'height:%s' % s.wrap.short()
+                if key in seen:
+                    r.obligations += 1
+                    continue
+                seen.add(key)
+                r.fail(Finding(
+                    PROP, 'R-LTL-0', s.wrap.where(), s.wrap.short(), key,
+                    'an LTL.%s formula over operands of heights %s gets '
+                    'height %s, expected %d: the atom builder then decides '
+                    'it before one of its operands (order-dependent wrong '
+                    'answers, e.g. A G ((p and q) or r))' % (
+                        name, bad[0], bad[1], 1 + max(bad[0])),
+                    expected='1 + max(heights of the operands)',
+                    found=repr(hv)[:160]))
+            else:
+                r.ok()
+    return r
+
+
+# ---------------------------------------------------------------------------
 # R-LTL-2
 # ---------------------------------------------------------------------------
 
@@ -924,8 +1002,18 @@ class LEval(Evaluator):
         c = self.ev(cont)
         return self.ev(item) in c
 
-    def op_update_all(self, *a):
-        raise NotEvaluable('update')
+    def op_call(self, fv, args, kw=None):
+        fns = self.env.get('$funcs', {})
+        if isinstance(fv, FRef) and fv.fi.qn in fns:
+            return fns[fv.fi.qn](*[self.ev(a) for a in args.items])
+        raise NotEvaluable('call of %r' % (fv,))
+
+    def op_inst(self, cref, oid, fields):
+        d = {kv.items[0].v: kv.items[1] for kv in fields.items}
+        if '$base' in d:
+            return self.op_graph(d['$base'], d['$edges'], d['$nodes'],
+                                 d.get('$sedges'))
+        return Evaluator.op_inst(self, cref, oid, fields)
 
 
 def rule_ltl4(prog, P):
@@ -1113,6 +1201,150 @@ def rule_ltl4(prog, P):
     return r
 
 
+def rule_ltl5(prog, P):
+    r = RuleResult('R-LTL-5', 'tableau construction: one node per atom; an '
+                   'edge between two atoms iff their states are joined by a '
+                   'transition and the edge predicate holds')
+    from .c14 import _KHooks
+    mod = P.mod
+    # the state index: the other module-level helper of the constructor
+    helper = None
+    for n in ast.walk(P.tinit.node):
+        if isinstance(n, ast.Call) and isinstance(n.func, ast.Name) and \
+                n.func.id in mod.funcs and mod.funcs[n.func.id] not in (
+                    P.atoms_fn, P.edge_pred, P.closure):
+            helper = mod.funcs[n.func.id]
+    if helper is None:
+        raise Inconclusive('R-LTL-5', 'state index helper not found',
+                           P.tinit.where())
+    # (a) the helper on unrolled symbolic instances
+    bad = None
+    nm = 0
+    for n in range(0, 4):
+        I = Interp(prog, Hooks(), rule='R-LTL-5')
+        path = I.new_path()
+        sts = [Sym('st%d' % i) for i in range(n)]
+        atoms = []
+        for i in range(n):
+            o = path.alloc('inst')
+            path.heap[o.oid].ci = P.atomcls
+            path.heap[o.oid].fields['state'] = sts[i]
+            atoms.append(o)
+        lst = I._mk_coll('list', atoms, path, None)
+        res = I.call_function(FRef(helper), [lst], [], path, helper.node)
+        res = [(p, v) for (p, v) in res if not isinstance(v, Raise)]
+        for asg in itertools.product([0, 1], repeat=n):
+            nm += 1
+            env = dict(zip(sts, asg))
+            want = {}
+            for i, sv in enumerate(asg):
+                want.setdefault(sv, []).append(i)
+            got = None
+            for (p, v) in res:
+                ev = LEval(env, None)
+                ok = True
+                for (c, pol) in p.pc:
+                    if bool(ev.ev(deep_snapshot(I, c, p))) != pol:
+                        ok = False
+                        break
+                if ok:
+                    d = ev.ev(deep_snapshot(I, v, p))
+                    got = {k: list(x) for k, x in d.items()}
+                    break
+            if got != want and bad is None:
+                bad = (list(asg), got, want)
+    r.inst(function=helper.short(), unrolled_lengths=[0, 1, 2, 3],
+           assignments=nm)
+    if bad:
+        r.fail(Finding(
+            PROP, 'R-LTL-5', helper.where(), helper.short(), 'state-index',
+            'for atoms with states %s the state index is %s, expected %s' %
+            bad, expected=bad[2], found=bad[1]))
+    else:
+        r.ok()
+
+    # (b) the constructor
+    class H(_KHooks):
+        def __init__(self):
+            self.graph_init(prog)
+            self.interpret_init = False
+
+        def inline(self, I, fi, args):
+            return fi not in (P.atoms_fn, P.edge_pred, P.closure, helper)
+    I = Interp(prog, H(), rule='R-LTL-5')
+    path = I.new_path()
+    o = path.alloc('inst')
+    path.heap[o.oid].ci = P.tableau
+    K = Sym('K', ('inst', prog.cls('kripke.Kripke')))
+    CL = Sym('closure', ('b', 'set'))
+    res = I.call_function(FRef(P.tinit), [o, K, Const(None), CL], [], path,
+                          P.tinit.node)
+    res = [(p, v) for (p, v) in res if not isinstance(v, Raise)]
+    if len(res) != 1:
+        raise Inconclusive('R-LTL-5', '%d paths through the tableau '
+                           'constructor' % len(res), P.tinit.where())
+    p = res[0][0]
+    snap = deep_snapshot(I, o, p)
+    atoms_call = App('call', FRef(P.atoms_fn), Tup([K, CL]), Tup(()))
+    index_call = App('call', FRef(helper), Tup([atoms_call]), Tup(()))
+    bad = None
+    nm = 0
+
+    def respects(a, b):
+        return (('m',) in a) == (('n',) in b)
+    memb = [frozenset(), frozenset([('m',)]), frozenset([('n',)]),
+            frozenset([('m',), ('n',)])]
+    try:
+        for n in (1, 2):
+            for g in all_graphs(n, total=True):
+                for k in (1, 2, 3):
+                    for sts in itertools.product(range(n), repeat=k):
+                        for ms in itertools.product(memb[:3], repeat=k):
+                            nm += 1
+                            atoms = [AtomVal(s_, m_) for s_, m_ in
+                                     zip(sts, ms)]
+                            idx = {}
+                            for i, a in enumerate(atoms):
+                                idx.setdefault(a.state, []).append(i)
+                            for s_ in g.nodes:
+                                idx.setdefault(s_, [])
+                            env = {K: g, CL: frozenset(),
+                                   atoms_call: atoms, index_call: idx,
+                                   '$adjfield': '_next',
+                                   '$funcs': {P.edge_pred.qn:
+                                              lambda xs, a, b: respects(a,
+                                                                        b)}}
+                            succ = {i: set() for i in range(k)}
+                            for i in range(k):
+                                for j in range(k):
+                                    if sts[j] in g.succ[sts[i]] and \
+                                            respects(atoms[i], atoms[j]):
+                                        succ[i].add(j)
+                            want = CG(range(k), succ)
+                            ev = LEval(env, None)
+                            try:
+                                got = ev.ev(snap)
+                            except GraphError as e:
+                                got = 'raises %s' % e
+                            if got != want and bad is None:
+                                bad = (repr(g), list(sts),
+                                       [sorted(m) for m in ms], repr(got),
+                                       repr(want))
+    except NotEvaluable as e:
+        raise Inconclusive('R-LTL-5', 'tableau summary not evaluable: %s' %
+                           e, P.tinit.where())
+    r.inst(function=P.tinit.short(), summary=repr(snap)[:300], cases=nm)
+    if bad:
+        r.fail(Finding(
+            PROP, 'R-LTL-5', P.tinit.where(), P.tinit.short(),
+            'tableau-edges',
+            'on K=%s with atoms on states %s (members %s) the tableau is '
+            '%s, expected %s' % bad, expected=bad[4], found=bad[3]))
+    else:
+        r.ok()
+    return r
+
+
 class _Goodset(object):
     def __init__(self, good):
         self.good = good
@@ -1165,8 +1397,9 @@ def _choice_eval(ev, c, sym):
 
 def run(prog, tier, seed):
     P = discover(prog)
-    results = [rule_ltl1(prog, P), rule_ltl2(prog, P), rule_ltl3(prog, P),
-               rule_ltl4(prog, P)]
+    results = [rule_ltl0(prog, P), rule_ltl1(prog, P), rule_ltl2(prog, P),
+               rule_ltl3(prog, P),
+               rule_ltl4(prog, P), rule_ltl5(prog, P)]
     expl = ('The parts of the LTL tableau procedure are discovered from '
             'LTL.modelcheck and analysed separately: (1) the E-procedure '
             'receives the path formula under an odd number of negations and '
